@@ -52,3 +52,18 @@ META['C06'] = dict(
     note='Trusted: page-granular guards for emitted code (an out-of-bounds access that stays inside the same page-multiple buffer is by definition in bounds); synthetic dataset contents.',
     technique='property-based testing (rapidcheck) with memory-safety oracles: guard pages, ASan, code checksums, canaries; driver-side delta debugging of crashing cases',
 )
+
+META['C05'] = dict(
+    text='Generated instruction sequences executed one instruction at a time by the implementation\'s decoder/executor and by an independent model of specs.md ch.4-5, comparing every '
+         'architectural effect after each step (1.9M steps quick / 190M thorough, all 256 opcodes x 2 versions covered), plus VM programming (4.5), load conversions (4.3) and whole '
+         '2048-iteration programs against the model through the real InterpretedVm and JIT. FP invariants are asserted on implementation values. Exploration of 2^64 words x states.',
+    note='Trusted: model/ref_vm.cpp as reading of the spec (its whole-hash composition reproduces the 10 published digests); host FPU for IEEE-754 rounding; -fno-access-control used on the harness TU only.',
+    technique='property-based testing (rapidcheck) against an independent single-step reference model',
+)
+META['C02'] = dict(
+    text='Generated (key,input,version) triples hashed by the library and by an independent executable reading of specs.md ch.2-7 (Blake2b, AES generators, Argon2d fill, SuperscalarHash '
+         'generator, dataset items, VM, driver), then re-hashed by two differently compiled builds in separate processes. 64 triples quick / 1536 thorough; each model hash costs ~1.5 s and each '
+         'new key ~2 s, which bounds the exploration.',
+    note='Trusted: the model (anchored to RFC 7693/9106, FIPS-197, hashlib, AES-NI and all 10 published digests); the loose parts of spec ch.6 are pinned to upstream behaviour and validated only by those digests and by C09.',
+    technique='property-based testing (rapidcheck) against an independent executable specification; cross-build / cross-process differential',
+)
